@@ -9,7 +9,7 @@ from common import hexs
 
 META = {
     "property": "C08",
-    "proof_modules": ["PyodaProofs.C08", "PyodaProofs.C08Create", "PyodaProofs.C08Stepped", "PyodaProofs.C08StepsWF"],
+    "proof_modules": ["PyodaProofs.C08", "PyodaProofs.C08Create", "PyodaProofs.C08Stepped", "PyodaProofs.C08StepsWF", "PyodaProofs.C08DateTime", "PyodaProofs.C08DateTimeWF"],
     "drivers": ["drv_text"],
     "theorems": [
         "Pyoda.C08.parseDigits_total",
@@ -51,6 +51,24 @@ META = {
         "Pyoda.C08.compileTime_wf",
         "Pyoda.C08.time_success_valid",
         "Pyoda.C08.offset_success_valid",
+        "Pyoda.C08.compileDateTime_total",
+        "Pyoda.C08.invariantCulture_dtTextsNoL",
+        "Pyoda.C08.dtValue_total",
+        "Pyoda.C08.datetime_parse_total",
+        "Pyoda.C08.parseLongest_index",
+        "Pyoda.C08.parseStep_dt_ok",
+        "Pyoda.C08.parseSteps_dt_ok",
+        "Pyoda.C08.dateValueT_valid",
+        "Pyoda.C08.timeValueT_valid",
+        "Pyoda.C08.dtValue_valid",
+        "Pyoda.C08.parseCompiled_date_valid",
+        "Pyoda.C08.parseCompiled_datetime_valid",
+        "Pyoda.C08.compileLoop_inv",
+        "Pyoda.C08.compileDate_wf",
+        "Pyoda.C08.compileDateTime_wf",
+        "Pyoda.C08.invariantCulture_monthHeadsEmpty",
+        "Pyoda.C08.date_success_valid",
+        "Pyoda.C08.datetime_success_valid",
     ],
     "trusted_base": [
         "str indexing inside _ValueCursor is guarded by the cursor's own length checks (modelled as list operations)",
